@@ -12,10 +12,14 @@ package main
 import (
 	"fmt"
 	"go/ast"
+	"os"
 	"go/types"
 
 	"golang.org/x/tools/go/cfg"
 )
+
+// keyTerm stands for "the key / index" inside all(xs, F) over a map or slice.
+var keyTerm = mk("key", "")
 
 func isConstS(t *Term, s string) bool { return t.K == "const" && t.S == s }
 
@@ -58,6 +62,10 @@ func deriveFacts(st *fstate, fs []*Term) []*Term {
 				}
 			}
 		case "lt":
+			// 0 < n: n is not zero
+			if isConstS(f.A[0], "0") {
+				add(fact("neq", f.A[1], mk("const", "0")))
+			}
 			if xs, x, ok := isIndexCall(f.A[0]); ok && isConstS(f.A[1], "0") {
 				add(fact("notmember", x, xs))
 			}
@@ -65,6 +73,14 @@ func deriveFacts(st *fstate, fs []*Term) []*Term {
 				add(fact("member", x, xs))
 			}
 		case "le":
+			// len(x) <= 0: x is empty
+			if isConstS(f.A[1], "0") && f.A[0].K == "call" && f.A[0].S == "len" {
+				add(fact("eq", f.A[0], mk("const", "0")))
+			}
+			if isConstS(f.A[0], "1") {
+				add(fact("neq", f.A[1], mk("const", "0")))
+				add(fact("lt", mk("const", "0"), f.A[1]))
+			}
 			if xs, x, ok := isIndexCall(f.A[0]); ok && isConstS(f.A[1], "-1") {
 				add(fact("notmember", x, xs))
 			}
@@ -74,6 +90,11 @@ func deriveFacts(st *fstate, fs []*Term) []*Term {
 		case "eq", "neq":
 			// "s consists of exactly n sep-separated segments", however it was counted
 			if f.S == "eq" {
+				for i := 0; i < 2; i++ {
+					if isConstS(f.A[1-i], "0") && f.A[i].K == "call" && f.A[i].S == "len" {
+						add(fact("le", f.A[i], mk("const", "0")))
+					}
+				}
 				for i := 0; i < 2; i++ {
 					l, c := f.A[i], f.A[1-i]
 					if c.K != "const" {
@@ -147,7 +168,7 @@ func deriveFacts(st *fstate, fs []*Term) []*Term {
 	n := len(out)
 	for _, l := range loops {
 		v := l.A[0]
-		if v.K != "var" {
+		if v.K != "var" && v.K != "index" {
 			continue
 		}
 		for _, f := range append(append([]*Term{}, fs...), out[:n]...) {
@@ -280,6 +301,12 @@ func (f *e1func) updateLoopFacts(g *cfg.CFG, in []map[string]*fstate) bool {
 							t = r
 							touched = true
 						}
+						// the key itself (e.g. copied[k] = v while ranging over a map)
+						if touched {
+							if r := replaceTerm(t, keyVar.Key(), keyTerm); r != nil {
+								t = r
+							}
+						}
 					}
 					if !touched {
 						continue
@@ -337,6 +364,194 @@ func (f *e1func) updateLoopFacts(g *cfg.CFG, in []map[string]*fstate) bool {
 		}
 		if !same {
 			f.loopAll[rs] = qs
+			changed = true
+		}
+	}
+	return changed
+}
+
+
+// indexLoop recognises the canonical index loop `for i := 0; i < len(xs); i++ { ... }` whose body assigns neither i nor xs;
+// it returns the index variable and the ranged expression.
+func (f *e1func) indexLoop(fs *ast.ForStmt) (*Term, *Term, bool) {
+	if fs == nil || fs.Init == nil || fs.Cond == nil || fs.Post == nil {
+		return nil, nil, false
+	}
+	as, ok := fs.Init.(*ast.AssignStmt)
+	if !ok || len(as.Lhs) != 1 || len(as.Rhs) != 1 {
+		return nil, nil, false
+	}
+	id, ok := as.Lhs[0].(*ast.Ident)
+	if !ok {
+		return nil, nil, false
+	}
+	if tv, ok := f.info.Types[as.Rhs[0]]; !ok || tv.Value == nil || tv.Value.String() != "0" {
+		return nil, nil, false
+	}
+	iv := f.objOfIdent(id)
+	if iv == nil {
+		return nil, nil, false
+	}
+	be, ok := unparen(fs.Cond).(*ast.BinaryExpr)
+	if !ok || be.Op.String() != "<" {
+		return nil, nil, false
+	}
+	cid, ok := unparen(be.X).(*ast.Ident)
+	if !ok || f.objOfIdent(cid) != iv {
+		return nil, nil, false
+	}
+	lc, ok := unparen(be.Y).(*ast.CallExpr)
+	if !ok || len(lc.Args) != 1 {
+		return nil, nil, false
+	}
+	if lid, ok := unparen(lc.Fun).(*ast.Ident); !ok || lid.Name != "len" {
+		return nil, nil, false
+	}
+	inc, ok := fs.Post.(*ast.IncDecStmt)
+	if !ok || inc.Tok.String() != "++" {
+		return nil, nil, false
+	}
+	if pid, ok := unparen(inc.X).(*ast.Ident); !ok || f.objOfIdent(pid) != iv {
+		return nil, nil, false
+	}
+	// the body must not assign the index or the ranged variable
+	var xsRoot types.Object
+	if xid, ok := unparen(lc.Args[0]).(*ast.Ident); ok {
+		xsRoot = f.objOfIdent(xid)
+	}
+	bad := false
+	ast.Inspect(fs.Body, func(n ast.Node) bool {
+		switch s := n.(type) {
+		case *ast.AssignStmt:
+			for _, l := range s.Lhs {
+				if lid, ok := unparen(l).(*ast.Ident); ok {
+					if o := f.objOfIdent(lid); o == iv || (xsRoot != nil && o == xsRoot) {
+						bad = true
+					}
+				}
+			}
+		case *ast.IncDecStmt:
+			if lid, ok := unparen(s.X).(*ast.Ident); ok && f.objOfIdent(lid) == iv {
+				bad = true
+			}
+		}
+		return !bad
+	})
+	if bad {
+		return nil, nil, false
+	}
+	return &Term{K: "var", S: iv.Name(), Obj: iv}, f.term(lc.Args[0]), true
+}
+
+// updateIndexLoopFacts: the all(xs, F) facts of canonical index loops, from the states entering the post statement.
+func (f *e1func) updateIndexLoopFacts(g *cfg.CFG, in []map[string]*fstate) bool {
+	changed := false
+	for _, head := range g.Blocks {
+		if !head.Live || head.Kind != cfg.KindForLoop {
+			continue
+		}
+		fs, ok := head.Stmt.(*ast.ForStmt)
+		if !ok {
+			continue
+		}
+		iv, xs, ok := f.indexLoop(fs)
+		if !ok {
+			continue
+		}
+		elem := mk("index", "", xs, iv)
+		perIter := map[types.Object]bool{}
+		ast.Inspect(fs.Body, func(n ast.Node) bool {
+			switch s := n.(type) {
+			case *ast.AssignStmt:
+				for _, l := range s.Lhs {
+					if id, ok := unparen(l).(*ast.Ident); ok {
+						if o := f.objOfIdent(id); o != nil {
+							perIter[o] = true
+						}
+					}
+				}
+			case *ast.ValueSpec:
+				for _, id := range s.Names {
+					if o := f.info.Defs[id]; o != nil {
+						perIter[o] = true
+					}
+				}
+			}
+			return true
+		})
+		var back []*fstate
+		for _, b := range g.Blocks {
+			if b.Live && b.Kind == cfg.KindForPost && b.Stmt == ast.Stmt(fs) {
+				for _, st := range in[b.Index] {
+					back = append(back, st)
+				}
+			}
+		}
+		var common map[string]*Term
+		for _, st := range back {
+			cur := map[string]*Term{}
+			for _, fc := range st.facts {
+				switch fc.S {
+				case "def", "defx", "orig", "inloop", "called", "some":
+					continue
+				}
+				t := replaceTerm(fc, elem.Key(), elemTerm)
+				if t == nil {
+					continue
+				}
+				bad := false
+				t.walk(func(x *Term) bool {
+					if x.K == "var" && (perIter[x.Obj] || x.Obj == iv.Obj) {
+						bad = true
+					}
+					return !bad
+				})
+				if !bad {
+					cur[t.Key()] = t
+				}
+			}
+			if common == nil {
+				common = cur
+			} else {
+				for k := range common {
+					if _, ok := cur[k]; !ok {
+						delete(common, k)
+					}
+				}
+			}
+		}
+		var qs []*Term
+		for _, k := range sortedKeys(common) {
+			body := common[k]
+			qs = append(qs, fact("all", xs, body))
+			if body.S == "neq" && len(body.A) == 2 {
+				for i := 0; i < 2; i++ {
+					if body.A[i].K == "elem" && !hasElem(body.A[1-i]) {
+						qs = append(qs, fact("notmember", body.A[1-i], xs))
+					}
+				}
+			}
+			if len(qs) >= 24 {
+				break
+			}
+		}
+		if os.Getenv("E1DEBUG") != "" {
+			fmt.Fprintf(os.Stderr, "index loop in %s over %s: %d back states, %d facts\n", f.fi.Name, xs, len(back), len(qs))
+		}
+		if f.forAll == nil {
+			f.forAll = map[*ast.ForStmt][]*Term{}
+		}
+		old := f.forAll[fs]
+		same := len(old) == len(qs)
+		if same {
+			for i := range qs {
+				if old[i].Key() != qs[i].Key() {
+					same = false
+				}
+			}
+		}
+		if !same {
+			f.forAll[fs] = qs
 			changed = true
 		}
 	}
